@@ -200,6 +200,11 @@ pub(crate) trait Tasks<Item> {
     fn add_task(&self, item: Item) -> Self::Task;
     fn run_task(&self, item: Item) {
         let task = self.add_task(item);
+        #[cfg(zcash_librustzcash_verif)]
+        let task = match verif_exec::offer(task) {
+            Some(task) => task,
+            None => return,
+        };
         rayon::spawn_fifo(|| task.run());
     }
 }
@@ -616,11 +621,86 @@ where
         block_tag: BlockHash,
         txid: TxId,
     ) -> HashMap<usize, DecryptedOutput<IvkTag, D, Dec::Memo>> {
+        #[cfg(zcash_librustzcash_verif)]
+        if let Some(receiver) = self.pending_results.get(&ResultKey(block_tag, txid)) {
+            verif_exec::run_until(&|| receiver.0.is_disconnected());
+        }
         self.pending_results
             .remove(&ResultKey(block_tag, txid))
             // We won't have a pending result if the transaction didn't have outputs of
             // this runner's kind.
             .map(BatchReceiver::into_results)
             .unwrap_or_default()
+    }
+}
+
+/// Verification seam (compiled only with `--cfg zcash_librustzcash_verif`): lets a harness decide,
+/// on the calling thread, when and in which order the batch trial-decryption tasks run, instead
+/// of handing them to the `rayon` pool. Inert unless an executor is installed on the current
+/// thread, in which case tasks submitted from that thread are queued with it.
+#[cfg(zcash_librustzcash_verif)]
+pub mod verif_exec {
+    use std::cell::RefCell;
+
+    /// A queued batch task.
+    pub type Job = Box<dyn FnOnce() + Send + 'static>;
+
+    /// A harness-supplied task executor.
+    pub trait Executor {
+        /// Accepts a submitted task.
+        fn spawn(&mut self, job: Job);
+        /// Called while the scanner waits for results of a transaction. Returns the task to
+        /// run next, or `None` if no queued task is left.
+        fn next(&mut self) -> Option<Job>;
+        /// Called when the scanner waits for results but no queued task is left.
+        fn stuck(&mut self);
+    }
+
+    thread_local! {
+        static EXECUTOR: RefCell<Option<Box<dyn Executor>>> = const { RefCell::new(None) };
+    }
+
+    /// Installs `executor` for tasks submitted from the current thread.
+    pub fn install(executor: Box<dyn Executor>) {
+        EXECUTOR.with(|e| *e.borrow_mut() = Some(executor));
+    }
+
+    /// Removes and returns the current thread's executor.
+    pub fn uninstall() -> Option<Box<dyn Executor>> {
+        EXECUTOR.with(|e| e.borrow_mut().take())
+    }
+
+    /// Queues `task` with the current thread's executor; gives it back if none is installed.
+    pub(crate) fn offer<T: super::Task>(task: T) -> Option<T> {
+        EXECUTOR.with(|e| match e.borrow_mut().as_mut() {
+            Some(executor) => {
+                executor.spawn(Box::new(move || task.run()));
+                None
+            }
+            None => Some(task),
+        })
+    }
+
+    /// Runs queued tasks, as chosen by the executor, until `done` holds.
+    pub(crate) fn run_until(done: &dyn Fn() -> bool) {
+        loop {
+            if done() {
+                return;
+            }
+            let job = EXECUTOR.with(|e| e.borrow_mut().as_mut().map(|executor| executor.next()));
+            match job {
+                // No executor installed: tasks run on the rayon pool as usual.
+                None => return,
+                Some(Some(job)) => job(),
+                Some(None) => {
+                    EXECUTOR.with(|e| {
+                        if let Some(executor) = e.borrow_mut().as_mut() {
+                            executor.stuck()
+                        }
+                    });
+                    return;
+                }
+            }
+        }
     }
 }
